@@ -421,3 +421,9 @@ pub struct VhostUserGpuScanout {
 unsafe impl ByteValued for VhostUserGpuScanout {}
 
 impl VhostUserMsgValidator for VhostUserGpuScanout {}
+
+// Verification harnesses (Kani); the sources live outside this repository.
+#[cfg(feature = "verif")]
+mod verif {
+    include!(concat!(env!("VHOST_VERIF_DIR"), "/harness/vu_gpu_message.rs"));
+}
